@@ -99,11 +99,17 @@ Theorem C06_generated_transpose_and_reshape : forall v nd,
 Proof. intros v nd. exact (conj (gen_transpose_eq v) (gen_reshape_eq v nd)). Qed.
 Print Assumptions C06_generated_transpose_and_reshape.
 
+(* operator[](i) on rank > 1 (const and non-const agree): offset along dimension 0, the other dimensions moved down *)
+Theorem C06_generated_leading_index : forall v i, gen_index0 v i = index0 v i.
+Proof. exact gen_index0_eq. Qed.
+Print Assumptions C06_generated_leading_index.
+
 (* non-vacuity: A(end-1, stride(end,0,-2)) of a 3 x 5 row-major matrix at offset 100 *)
 Example C06_example_generated_slice :
   gen_slice (mkView 100 [3;5] [5;1]) [IS (IEnd (-1)); IR (IEnd 0) (IAbs 0) (-2)] = mkView 109 [3] [-2] /\
   gen_diag_vector (mkView 7 [4;4] [4;1]) (-1) = mkView 11 [3] [5] /\
   gen_submatrix_on_diagonal (mkView 7 [4;4] [4;1]) 1 2 = mkView 12 [2;2] [4;1] /\
   gen_transpose (mkView 7 [2;3] [3;1]) = mkView 7 [3;2] [1;3] /\
-  gen_reshape (mkView 5 [12] [-2]) [2;3;2] = mkView 5 [2;3;2] [-12;-4;-2].
+  gen_reshape (mkView 5 [12] [-2]) [2;3;2] = mkView 5 [2;3;2] [-12;-4;-2] /\
+  gen_index0 (mkView 7 [2;3] [3;1]) (IEnd 0) = mkView 10 [3] [1].
 Proof. vm_compute. repeat split. Qed.
